@@ -1,9 +1,9 @@
 PROPERTY = "C03"
 LEVEL = "proof"
-LEAN_MODULES = ["CifModel.Props.C03", "CifModel.Props.C03Extra", "CifModel.Lemmas.ParserTop", "CifModel.Lemmas.ParserQuiet", "CifModel.Lemmas.ParserConsistent", "CifModel.Lemmas.ParserStore", "CifModel.Lemmas.ParserDetProd", "CifModel.Lemmas.ParserDetLex", "CifModel.Lemmas.ParserDet", "CifModel.Props.ReviewC03"]
+LEAN_MODULES = ["CifModel.Props.C03", "CifModel.Props.C03Extra", "CifModel.Lemmas.ParserTop", "CifModel.Lemmas.ParserQuiet", "CifModel.Lemmas.ParserConsistent", "CifModel.Lemmas.ParserRect", "CifModel.Lemmas.ParserStore", "CifModel.Lemmas.ParserDetProd", "CifModel.Lemmas.ParserDetLex", "CifModel.Lemmas.ParserDet", "CifModel.Props.ReviewC03"]
 REQUIRED = ["CifModel.C03_total", "CifModel.C03_clamp", "CifModel.C03_report_site", "CifModel.C03_prefix_determinism", "CifModel.C03_result",
             "CifModel.C03_reported_partial", "CifModel.C03_reported", "CifModel.C03_reported_full", "CifModel.Model.Parser.parseInternal_die", "CifModel.C03_consistent_after", "CifModel.C03_consistent_after_fresh",
-            "CifModel.C03_consistent_iff", "CifModel.C03_consistent_container", "CifModel.Model.Parser.parse_ok", "CifModel.Model.Parser.updIn_ok",
+            "CifModel.C03_consistent_iff", "CifModel.C03_consistent_container", "CifModel.C03_packets_rectangular", "CifModel.C03_rectangular_iff", "CifModel.C03_rectangular_container", "CifModel.Model.Parser.parse_okR", "CifModel.Model.Parser.packetsLoop_presR", "CifModel.Model.Parser.parse_ok", "CifModel.Model.Parser.updIn_ok",
             "CifModel.C03_die_is_first", "CifModel.C03_accept_all", "CifModel.C03_codes_nonzero",
             "CifModel.C03_fuel_suffices", "CifModel.C03_nofuel_only_from_callback", "CifModel.C03_callback_lines",
             "CifModel.C03_scanner_lines_monotone",
@@ -43,12 +43,13 @@ PARTIAL = [
     "(C03_nofuel_only_from_callback)",
     "C03_callback_lines is proved (Props/C03Extra.lean): every report of every parse has line >= 1, for every policy, completed or aborted; "
     "C03_scanner_lines_monotone is the scanner-level form",
-    "C03_consistent_after is proved about the model's target (the documented data model, CifModel.Cif): block codes / frame codes "
-    "distinct after normalisation, every normalised item name once per container, at most one scalar loop, at most one packet in a "
-    "scalar loop — after every parse, also an aborted one, from every consistent initial target.  NOT in the invariant: that every "
-    "packet has as many values as its loop has names (needs the column bookkeeping of parse_loop_packets).  That the REAL store is "
-    "consistent after a parse is observed, not proved: the executor walks, writes, modifies and destroys the real CIF after every "
-    "parse under ASan/UBSan, and its dump is compared with the model's.",
+    "C03_consistent_after / C03_packets_rectangular are proved about the model's target (the documented data model, CifModel.Cif): block codes / "
+    "frame codes distinct after normalisation, every normalised item name once per container, at most one scalar loop, at most one packet "
+    "in a scalar loop, AND (C03_packets_rectangular, Lemmas/ParserRect: the column bookkeeping of parse_loop_packets with dropped duplicate / "
+    "invalid header names, the wrap of the column index and the CIF_PARTIAL_PACKET padding) every packet of every loop has exactly as many "
+    "values as its loop has names — after every parse, also an aborted one, from every consistent (and rectangular) initial target.  "
+    "That the REAL store holds this content is C03_parser_store_refines (see below) composed with the store model; beyond that it is observed: "
+    "the executor walks, writes, modifies and destroys the real CIF after every parse under ASan/UBSan, and its dump is compared with the model's.",
     "memory safety, undefined behaviour and byte decoding of the C are runtime-observed only (families parse and parsebytes).",
 ]
 LEVEL_TEXT = ("Theorems about the executable integrated parser model (every input string, every option record, every callback "
